@@ -73,6 +73,7 @@ pub struct Sim {
     pub trace_tail: usize,
     pub run_id: u64,
     pub trace_len: u64,
+    pub pt: crate::ptrace::PTrace,
 }
 
 fn logger() -> slog::Logger {
@@ -107,7 +108,7 @@ pub fn call_kind(c: &Call) -> &'static str {
 
 impl Sim {
     pub fn new(seed: u64, rec: Recorder) -> Sim {
-        Sim { nodes: vec![], net: vec![], rng: Rng::new(seed), rec, next_payload: 1, max_log: 12, trace: vec![], keep_trace: false, trace_tail: 60, run_id: seed, trace_len: 0 }
+        Sim { nodes: vec![], net: vec![], rng: Rng::new(seed), rec, next_payload: 1, max_log: 12, trace: vec![], keep_trace: false, trace_tail: 60, run_id: seed, trace_len: 0, pt: Default::default() }
     }
 
     /// Random cluster shape and per-node configuration.
@@ -149,6 +150,8 @@ impl Sim {
         for i in 0..self.nodes.len() {
             self.start(i);
         }
+        self.pt.inc = voters.clone();
+        self.pt.enabled = true;
     }
 
     pub fn start(&mut self, i: usize) {
@@ -161,8 +164,11 @@ impl Sim {
         let _ = raft::verif_raft::take_draws();
         match r {
             Ok(Ok(node)) => {
+                let (t, v) = (node.raft.term, node.raft.vote);
                 n.driver = Some(Driver { node, last_rd: None });
                 n.reported = n.applied;
+                let id = n.id;
+                self.pt.restart(id, t, v);
                 n.async_pending.clear();
                 n.to_apply.clear();
             }
@@ -179,7 +185,29 @@ impl Sim {
     pub fn call(&mut self, i: usize, c: Call) -> Option<CallOutcome> {
         let d = self.nodes[i].driver.as_mut()?;
         let role = d.node.raft.state;
+        let ppre = (d.node.raft.term, d.node.raft.vote, d.node.raft.state);
         let o = d.exec(&c);
+        let ppost = (d.node.raft.term, d.node.raft.vote, d.node.raft.state);
+        let gfrom = match &c {
+            Call::Step(m) if m.get_msg_type() == MessageType::MsgRequestVoteResponse && !m.reject && m.term == ppre.0 => Some(m.from),
+            _ => None,
+        };
+        let nid = self.nodes[i].id;
+        if o.panicked.is_none() {
+            self.pt.call(nid, ppre, ppost, gfrom);
+            if let Call::ApplyConfChange(_) = &c {
+                if o.conf_state.is_some() {
+                    self.pt.enabled = false;
+                }
+            }
+            if let (Call::Ready, Some(rv)) = (&c, o.ready.as_ref()) {
+                if rv.hs.is_some() {
+                    self.pt.ready_hs(nid);
+                }
+            }
+        } else {
+            self.pt.crash(nid);
+        }
         let meta = format!("{} {:?} {} run={} ev={}", call_kind(&c), role,
             if let Call::Step(m) = &c { format!("{:?}", m.get_msg_type()) } else { "-".to_string() },
             self.run_id, self.trace_len);
@@ -206,6 +234,7 @@ impl Sim {
 
     fn send(&mut self, msgs: Vec<Message>) {
         for m in msgs {
+            self.pt.send(&m);
             if self.net.len() < 400 {
                 self.net.push(m);
             }
@@ -279,6 +308,7 @@ impl Sim {
             hs.term = t;
             hs.vote = v;
             hs.commit = c;
+            self.pt.fsync(n.id, t, v);
         }
     }
 
@@ -479,6 +509,8 @@ impl Sim {
                 // crash (volatile state lost; everything written to the store is durable)
                 if self.nodes[i].driver.is_some() && self.nodes.iter().filter(|n| n.driver.is_some()).count() > 1 {
                     self.nodes[i].driver = None;
+                    let nid = self.nodes[i].id;
+                    self.pt.crash(nid);
                     self.nodes[i].async_pending.clear();
                     self.nodes[i].to_apply.clear();
                 }
